@@ -179,6 +179,7 @@ class StmtMixin:
             self.emit(st, fx, "REG", node, reg=base[1], key=key, val=val, addr=base[2], how="setitem",
                       valkey=st.heap.get((val, self.elem_key_field), ("attr", val, self.elem_key_field)))
             st.hits.add((base[1], key))
+            st.hits.discard(("gone", base[1], key))
             self._drop_reg_facts(st, base[1])
         elif isinstance(base, tuple) and base[0] == "regtop":
             self.emit(st, fx, "REGTOP", node, reg=base[1], key=key, val=val)
@@ -270,7 +271,7 @@ class StmtMixin:
                     if nm not in names and isinstance(v, tuple) and v[:1] != ("old",) and mentions(v, ("attr",) + k):
                         base.env[nm] = ("old", v, loop_id)
             for rg in touched_regs:
-                base.hits = {h for h in base.hits if h[0] != rg}
+                base.hits = {h for h in base.hits if h[0] != rg and not (h[0] == "gone" and h[1] == rg)}
                 self._drop_reg_facts(base, rg)
             extra = bind(base, loop_id) or {}
             body_paths = []
@@ -328,7 +329,7 @@ class StmtMixin:
                 if nm not in names and isinstance(v, tuple) and v[:1] != ("old",) and mentions(v, ("attr",) + k):
                     st.env[nm] = ("old", v, loop_id)
         for rg in touched_regs:
-            st.hits = {h for h in st.hits if h[0] != rg}
+            st.hits = {h for h in st.hits if h[0] != rg and not (h[0] == "gone" and h[1] == rg)}
             self._drop_reg_facts(st, rg)
         if n.orelse:
             # the else clause runs when the loop ends without break; a break skips it
